@@ -243,6 +243,10 @@ func TestC08CrashRestart(t *testing.T) {
 					lim = int(maxSize / 3)
 				}
 				data = gen.DrawBlob(t, label+".blob", 1, lim).Data
+				if label == "inflight" && kind == cache.CAS && !tight && rapid.IntRange(0, 3).Draw(t, label+".multichunk") == 0 {
+					// several 1 MiB chunks: a kill can leave complete chunks followed by nothing
+					data = gen.Expand(uint64(i)+4000, rapid.IntRange(gen.MiB+1, 3*gen.MiB+100).Draw(t, label+".bigsize"), rapid.SampledFrom([]string{"rand", "text"}).Draw(t, label+".bigcontent"))
+				}
 			}
 			hash := gen.SHA(data)
 			if kind != cache.CAS {
@@ -579,6 +583,19 @@ func checkImage(t *rapid.T, im image, before, after, codec string, maxSize int64
 	if im.inflight != nil {
 		v := *im.inflight
 		cands := append(append([][]byte{}, im.acked[v.key()]...), v.data)
+		compressedRead := func() {
+			if hit, got := read(v.kind, v.hash, int64(len(v.data)), true); hit && !bytes.Equal(got, v.data) {
+				if !(before == "uncompressed" && strings.Contains(im.stage, "corrupt-payload") && len(got) == len(v.data) && E.Known(sigCASFull)) {
+					t.Fatalf("torn CAS entry served through the compressed read (%d bytes)\n%s", len(got), desc)
+				}
+			}
+		}
+		// (a failed read drops the entry: whichever kind of read comes first is the
+		// one that meets the torn file)
+		compressedFirst := v.kind == cache.CAS && rapid.Bool().Draw(t, "compressedReadFirst")
+		if compressedFirst {
+			compressedRead()
+		}
 		for _, sz := range []int64{int64(len(v.data)), -1} {
 			hit, got := read(v.kind, v.hash, sz, false)
 			if !hit {
@@ -604,12 +621,8 @@ func checkImage(t *rapid.T, im image, before, after, codec string, maxSize int64
 				t.Fatalf("torn %s entry served: %d bytes that are no completed upload (size=%d)\n%s", v.kind, len(got), sz, desc)
 			}
 		}
-		if v.kind == cache.CAS {
-			if hit, got := read(v.kind, v.hash, int64(len(v.data)), true); hit && !bytes.Equal(got, v.data) {
-				if !(before == "uncompressed" && strings.Contains(im.stage, "corrupt-payload") && len(got) == len(v.data) && E.Known(sigCASFull)) {
-					t.Fatalf("torn CAS entry served through the compressed read\n%s", desc)
-				}
-			}
+		if v.kind == cache.CAS && !compressedFirst {
+			compressedRead()
 		}
 		if v.kind == cache.AC {
 			ar, raw, err := s.Cache.GetValidatedActionResult(context.Background(), v.hash)
